@@ -78,6 +78,15 @@ CLAIMED = {
     "C18": ("Coq proof (optimum is monotone under any mapspace enlargement that preserves costs; larger memories / larger may_keep / smaller keep are such enlargements and preserve feasibility) + pairs of mapper runs",
             "C18_monotone, C18_relaxations; (constrained spec, relaxed spec) pairs x {ENERGY, LATENCY, EDP} on the real mapper: the relaxed optimum never exceeds the tight one, both also equal to the exhaustive reference when the relaxation is in the model; imperfect temporal factorisation and the fused-loop limit are mapper-only relaxations. PARTIAL: loop-bound and min_usage relaxations need spatial fanouts (outside the class).",
             "Coq kernel; MiniForge class"),
+    "C19": ("Coq proof (energy clause: scaling every per-action energy and leak power by k scales the energy of every mapping by k under model and execution, leaves latency and the mapspace unchanged, hence scales the optimum) + scaled mapper runs",
+            "C19_energy_of_every_mapping, C19_space_unchanged, C19_energy_scale_partial; the real mapper is run on (spec, scaled spec) pairs for k in {2^-20 ... 2^40, 1e20} (energies, throughputs) and with workload / Einsum n_instances; oracle: optimal energy x k, optimal latency / k, totals x n_instances, feasibility unchanged. PARTIAL: the throughput and n_instances clauses are mapper-only (not proved).",
+            "Coq kernel; MiniForge class; fix F11 (int64 overflow) found by this check"),
+    "C16": ("Coq proof (what a (1+t)-covering pruning that keeps only real candidates guarantees: optimum <= best kept <= (1+t) optimum; no compounding under a transitive cover relation) + end-to-end tolerance runs of the real mapper against the exact enumerated optimum",
+            "C16_never_below, C16_objective_bound, C16_no_compounding; map_workload_to_arch with objective_tolerance in {0.01, 0.1, 0.5} and resource_usage_tolerance in {0, 0.01, 0.1, 0.5} on random specs (most capacity-bound): exact optimum <= best returned <= (1+t) x exact optimum, every returned mapping valid (verified checker's twin + real model). PARTIAL: that each pruning site satisfies the covering premise is checked end to end, not proved.",
+            "Coq kernel; exact optimum from AF.Lib.MiniSpace"),
+    "C20": ("Coq proof (the front is a function of the set of candidates: permutation invariance; filtering pieces before the union loses nothing; index-tagged collection from C32) + differential mapper runs across worker counts, forced arrival orders, hash seeds and cache states",
+            "C20_order_independent, C20_split; map_workload_to_arch is run in separate processes with 1/4/16 workers, hook H1 permuting job arrival, PYTHONHASHSEED 0/1/12345, cold and warm cache_dir; sorted objective vectors and mapping structures must be identical. PARTIAL: process pools, pickling, OS scheduling and the disk cache are runtime behaviour outside any Gallina model.",
+            "Coq kernel; hook H1; fix F12 (tie-break depended on job completion order) found by this check"),
 }
 
 PENDING_REASON = "check not built yet in this round (planned, see DESIGN.md section 6); not claimed until its proof and correspondence exist"
